@@ -1,1 +1,496 @@
-fn main() {}
+//! msat: a monitor "external SAT solver" (DESIGN.md section 4.7).
+//!
+//! Reads a DIMACS CNF on stdin, validates it strictly, appends one JSON line describing what it
+//! received to the log file, solves it with the `cadical` crate and replies in SAT-competition
+//! format, shaped (or deliberately broken) by its command-line options:
+//!
+//!   log=<path>            where to append the JSON line (default $MSAT_LOG, else none)
+//!   state=<dir>           directory holding the invocation counter (default $MSAT_STATE)
+//!   pad=<bytes>[,after]   comment volume before (default) or after the verdict
+//!   vsplit=<k>            literals per `v` line (0 = all on one line)
+//!   crlf                  CRLF line ends
+//!   mode=early-out        write the padding before reading stdin
+//!   mode=slow-read:<ms>   read stdin in 4 KiB chunks with a pause
+//!   mode=no-read          exit without reading stdin (nothing is printed)
+//!   mode=close-stdout-early   print the reply, close stdout, keep running 200 ms
+//!   fault=<kind>@<k>      misbehave at invocation number k (1-based; `*` = always):
+//!                         exit-silent | status-only | truncated-model | truncated-model-midnumber |
+//!                         garbage-line | unknown-status | wrong-var | double-status | crash | exit-code
+//!   lenient               accept a malformed instance (ignore header mismatches) instead of failing
+
+use std::io::{Read, Write};
+use std::time::Instant;
+
+struct Opts {
+    log: Option<String>,
+    state: Option<String>,
+    pad: usize,
+    pad_after: bool,
+    vsplit: usize,
+    crlf: bool,
+    mode: String,
+    slow_ms: u64,
+    fault: Option<(String, Option<u64>)>,
+    lenient: bool,
+}
+
+fn parse_opts() -> Opts {
+    let mut o = Opts {
+        log: std::env::var("MSAT_LOG").ok(),
+        state: std::env::var("MSAT_STATE").ok(),
+        pad: 0,
+        pad_after: false,
+        vsplit: 0,
+        crlf: false,
+        mode: "normal".to_string(),
+        slow_ms: 0,
+        fault: None,
+        lenient: false,
+    };
+    for a in std::env::args().skip(1) {
+        if let Some(v) = a.strip_prefix("log=") {
+            o.log = Some(v.to_string());
+        } else if let Some(v) = a.strip_prefix("state=") {
+            o.state = Some(v.to_string());
+        } else if let Some(v) = a.strip_prefix("pad=") {
+            let (n, rest) = match v.split_once(',') {
+                Some((n, r)) => (n, r),
+                None => (v, "before"),
+            };
+            o.pad = n.parse().unwrap_or(0);
+            o.pad_after = rest == "after";
+        } else if let Some(v) = a.strip_prefix("vsplit=") {
+            o.vsplit = v.parse().unwrap_or(0);
+        } else if a == "crlf" {
+            o.crlf = true;
+        } else if a == "lenient" {
+            o.lenient = true;
+        } else if let Some(v) = a.strip_prefix("mode=") {
+            if let Some(ms) = v.strip_prefix("slow-read:") {
+                o.mode = "slow-read".to_string();
+                o.slow_ms = ms.parse().unwrap_or(1);
+            } else {
+                o.mode = v.to_string();
+            }
+        } else if let Some(v) = a.strip_prefix("fault=") {
+            if let Some((k, at)) = v.split_once('@') {
+                let at = if at == "*" { None } else { at.parse().ok() };
+                o.fault = Some((k.to_string(), at));
+            }
+        }
+    }
+    o
+}
+
+fn next_invocation(state: &Option<String>) -> u64 {
+    // sequential callers only (crustabri waits for each child): read-increment-write is enough
+    let dir = match state {
+        Some(d) => d,
+        None => return 0,
+    };
+    let path = format!("{}/counter", dir);
+    let cur: u64 = std::fs::read_to_string(&path)
+        .ok()
+        .and_then(|s| s.trim().parse().ok())
+        .unwrap_or(0);
+    let _ = std::fs::write(&path, format!("{}", cur + 1));
+    cur + 1
+}
+
+struct Parsed {
+    header: Option<(usize, usize)>,
+    clauses: Vec<Vec<i32>>,
+    max_var: usize,
+    empty_clauses: usize,
+    errors: Vec<String>,
+}
+
+fn parse_dimacs(text: &[u8]) -> Parsed {
+    let mut p = Parsed {
+        header: None,
+        clauses: Vec::new(),
+        max_var: 0,
+        empty_clauses: 0,
+        errors: Vec::new(),
+    };
+    let s = match std::str::from_utf8(text) {
+        Ok(s) => s,
+        Err(_) => {
+            p.errors.push("not-utf8".to_string());
+            return p;
+        }
+    };
+    let mut cur: Vec<i32> = Vec::new();
+    for (ln, line) in s.lines().enumerate() {
+        let t = line.trim();
+        if t.is_empty() {
+            continue;
+        }
+        if t.starts_with('c') {
+            continue;
+        }
+        if t.starts_with('p') {
+            if p.header.is_some() {
+                p.errors.push(format!("second-header-line-{}", ln + 1));
+                continue;
+            }
+            if !p.clauses.is_empty() || !cur.is_empty() {
+                p.errors.push("header-after-clauses".to_string());
+            }
+            let w: Vec<&str> = t.split_whitespace().collect();
+            if w.len() != 4 || w[0] != "p" || w[1] != "cnf" {
+                p.errors.push("bad-header".to_string());
+                continue;
+            }
+            match (w[2].parse::<usize>(), w[3].parse::<usize>()) {
+                (Ok(v), Ok(c)) => p.header = Some((v, c)),
+                _ => p.errors.push("bad-header-numbers".to_string()),
+            }
+            continue;
+        }
+        if p.header.is_none() && !p.errors.iter().any(|e| e == "clause-before-header") {
+            p.errors.push("clause-before-header".to_string());
+        }
+        for tok in t.split_whitespace() {
+            match tok.parse::<i64>() {
+                Ok(0) => {
+                    if cur.is_empty() {
+                        p.empty_clauses += 1;
+                    }
+                    p.clauses.push(std::mem::take(&mut cur));
+                }
+                Ok(l) => {
+                    let v = l.unsigned_abs() as usize;
+                    if v > i32::MAX as usize {
+                        p.errors.push("literal-too-large".to_string());
+                    } else {
+                        p.max_var = p.max_var.max(v);
+                        cur.push(l as i32);
+                    }
+                }
+                Err(_) => {
+                    if !p.errors.iter().any(|e| e.starts_with("not-a-literal")) {
+                        p.errors.push(format!("not-a-literal:{}", tok.chars().take(12).collect::<String>()));
+                    }
+                }
+            }
+        }
+    }
+    if !cur.is_empty() {
+        p.errors.push("last-clause-not-terminated".to_string());
+    }
+    match p.header {
+        None => {
+            if !p.errors.iter().any(|e| e.contains("header")) {
+                p.errors.push("missing-header".to_string());
+            }
+        }
+        Some((v, c)) => {
+            if p.max_var > v {
+                p.errors.push(format!("variable-{}-exceeds-header-{}", p.max_var, v));
+            }
+            if p.clauses.len() != c {
+                p.errors.push(format!("clause-count-{}-differs-from-header-{}", p.clauses.len(), c));
+            }
+        }
+    }
+    p
+}
+
+fn json_escape(s: &str) -> String {
+    let mut o = String::new();
+    for c in s.chars() {
+        match c {
+            '"' => o.push_str("\\\""),
+            '\\' => o.push_str("\\\\"),
+            '\n' => o.push_str("\\n"),
+            c if (c as u32) < 0x20 => o.push_str(&format!("\\u{:04x}", c as u32)),
+            c => o.push(c),
+        }
+    }
+    o
+}
+
+#[allow(clippy::too_many_arguments)]
+fn write_log(
+    o: &Opts,
+    invocation: u64,
+    bytes_in: usize,
+    p: Option<&Parsed>,
+    t: [u128; 5],
+    reply_kind: &str,
+    reply_bytes: usize,
+    verdict: &str,
+) {
+    let path = match &o.log {
+        Some(p) => p,
+        None => return,
+    };
+    let (header, max_var, clauses, empty, errors) = match p {
+        Some(p) => (
+            match p.header {
+                Some((v, c)) => format!("[{},{}]", v, c),
+                None => "null".to_string(),
+            },
+            p.max_var,
+            p.clauses.len(),
+            p.empty_clauses,
+            p.errors
+                .iter()
+                .map(|e| format!("\"{}\"", json_escape(e)))
+                .collect::<Vec<_>>()
+                .join(","),
+        ),
+        None => ("null".to_string(), 0, 0, 0, String::new()),
+    };
+    let line = format!(
+        "{{\"pid\":{},\"invocation\":{},\"mode\":\"{}\",\"bytes_in\":{},\"header\":{},\"max_var\":{},\"clauses\":{},\"empty_clauses\":{},\"syntax_errors\":[{}],\"t_us\":{{\"start\":{},\"first_read\":{},\"eof\":{},\"first_write\":{},\"exit\":{}}},\"reply\":{{\"kind\":\"{}\",\"bytes\":{}}},\"verdict\":\"{}\"}}\n",
+        std::process::id(), invocation, json_escape(&o.mode), bytes_in, header, max_var, clauses, empty, errors,
+        t[0], t[1], t[2], t[3], t[4], json_escape(reply_kind), reply_bytes, verdict
+    );
+    if let Ok(mut f) = std::fs::OpenOptions::new().create(true).append(true).open(path) {
+        let _ = f.write_all(line.as_bytes());
+    }
+}
+
+fn pad_bytes(n: usize, eol: &str) -> Vec<u8> {
+    // comment lines of 64 characters
+    let mut v = Vec::with_capacity(n + 80);
+    let line = format!("c {}{}", "x".repeat(62 - eol.len().min(2)), eol);
+    while v.len() < n {
+        v.extend_from_slice(line.as_bytes());
+    }
+    v
+}
+
+fn main() {
+    let o = parse_opts();
+    let t0 = Instant::now();
+    let us = |t: &Instant| t.elapsed().as_micros();
+    let invocation = next_invocation(&o.state);
+    let eol = if o.crlf { "\r\n" } else { "\n" };
+    let fault_now: Option<String> = match &o.fault {
+        Some((k, None)) => Some(k.clone()),
+        Some((k, Some(at))) if *at == invocation => Some(k.clone()),
+        _ => None,
+    };
+    let stdout = std::io::stdout();
+    let mut out = stdout.lock();
+    let mut written = 0usize;
+    let mut t_first_write: u128 = 0;
+    let mut emit = |out: &mut std::io::StdoutLock, b: &[u8], written: &mut usize, tfw: &mut u128| -> bool {
+        if *tfw == 0 {
+            *tfw = us(&t0).max(1);
+        }
+        match out.write_all(b) {
+            Ok(()) => {
+                *written += b.len();
+                true
+            }
+            Err(_) => false,
+        }
+    };
+
+    if o.mode == "no-read" {
+        write_log(&o, invocation, 0, None, [0, 0, 0, 0, us(&t0)], "none", 0, "none");
+        std::process::exit(0);
+    }
+    if o.mode == "early-out" && o.pad > 0 && !o.pad_after {
+        let p = pad_bytes(o.pad, eol);
+        emit(&mut out, &p, &mut written, &mut t_first_write);
+        let _ = out.flush();
+    }
+    // read stdin
+    let mut input: Vec<u8> = Vec::new();
+    let mut t_first_read: u128 = 0;
+    {
+        let stdin = std::io::stdin();
+        let mut lock = stdin.lock();
+        let mut buf = vec![0u8; 4096];
+        loop {
+            match lock.read(&mut buf) {
+                Ok(0) => break,
+                Ok(n) => {
+                    if t_first_read == 0 {
+                        t_first_read = us(&t0).max(1);
+                    }
+                    input.extend_from_slice(&buf[..n]);
+                    if o.mode == "slow-read" {
+                        std::thread::sleep(std::time::Duration::from_millis(o.slow_ms));
+                    }
+                }
+                Err(_) => break,
+            }
+        }
+    }
+    let t_eof = us(&t0);
+    let parsed = parse_dimacs(&input);
+    if !parsed.errors.is_empty() && !o.lenient {
+        // answer like a strict real solver: complain on stderr, no verdict, exit 1
+        eprintln!("msat: parse error: {}", parsed.errors.join("; "));
+        write_log(&o, invocation, input.len(), Some(&parsed), [0, t_first_read, t_eof, 0, us(&t0)], "parse-error", 0, "none");
+        std::process::exit(1);
+    }
+    // solve
+    let mut solver: cadical::Solver = cadical::Solver::new();
+    let n_vars = parsed.header.map(|h| h.0).unwrap_or(0).max(parsed.max_var);
+    for c in parsed.clauses.iter() {
+        solver.add_clause(c.iter().copied());
+    }
+    let verdict = solver.solve();
+    let verdict_name = match verdict {
+        Some(true) => "sat",
+        Some(false) => "unsat",
+        None => "unknown",
+    };
+    let model: Vec<i32> = if verdict == Some(true) {
+        (1..=n_vars as i32)
+            .map(|v| if solver.value(v) == Some(true) { v } else { -v })
+            .collect()
+    } else {
+        vec![]
+    };
+    // build the reply
+    let mut reply: Vec<u8> = Vec::new();
+    let mut kind = "honest".to_string();
+    let status_line = |sat: bool| -> String {
+        format!("s {}{}", if sat { "SATISFIABLE" } else { "UNSATISFIABLE" }, eol)
+    };
+    let v_lines = |lits: &[i32], terminate: bool| -> String {
+        let mut s = String::new();
+        let chunk = if o.vsplit == 0 { lits.len().max(1) } else { o.vsplit };
+        let mut toks: Vec<String> = lits.iter().map(|l| l.to_string()).collect();
+        if terminate {
+            toks.push("0".to_string());
+        }
+        if toks.is_empty() {
+            return s;
+        }
+        for c in toks.chunks(chunk) {
+            s.push_str("v ");
+            s.push_str(&c.join(" "));
+            s.push_str(eol);
+        }
+        s
+    };
+    if o.pad > 0 && !o.pad_after && o.mode != "early-out" {
+        reply.extend_from_slice(&pad_bytes(o.pad, eol));
+    }
+    match fault_now.as_deref() {
+        None => {
+            match verdict {
+                Some(true) => {
+                    reply.extend_from_slice(status_line(true).as_bytes());
+                    reply.extend_from_slice(v_lines(&model, true).as_bytes());
+                }
+                Some(false) => reply.extend_from_slice(status_line(false).as_bytes()),
+                None => reply.extend_from_slice(format!("s UNKNOWN{}", eol).as_bytes()),
+            }
+        }
+        Some(k) => {
+            kind = format!("fault:{}", k);
+            // kinds that cut a model short only make sense for a satisfiable instance; otherwise the
+            // fault degrades to "no reply" so that msat fails to decide but never lies
+            let needs_model = matches!(
+                k,
+                "status-only" | "truncated-model" | "truncated-model-midnumber" | "wrong-var" | "crash"
+            );
+            let k = if needs_model && verdict != Some(true) {
+                kind = format!("fault:{}-degraded-to-silence", k);
+                if k == "crash" {
+                    "crash-silent"
+                } else {
+                    "exit-silent"
+                }
+            } else {
+                k
+            };
+            match k {
+                "crash-silent" => reply.clear(),
+                "exit-silent" => reply.clear(),
+                "exit-code" => {
+                    reply.clear();
+                }
+                "status-only" => reply.extend_from_slice(status_line(true).as_bytes()),
+                "truncated-model" => {
+                    reply.extend_from_slice(status_line(true).as_bytes());
+                    let lits: Vec<i32> = if model.is_empty() { (1..=n_vars.max(1) as i32).collect() } else { model.clone() };
+                    let cut = lits.len().div_ceil(2).max(1).min(lits.len());
+                    reply.extend_from_slice(v_lines(&lits[..cut], false).as_bytes());
+                }
+                "truncated-model-midnumber" => {
+                    reply.extend_from_slice(status_line(true).as_bytes());
+                    let lits: Vec<i32> = if model.is_empty() { (1..=n_vars.max(1) as i32).collect() } else { model.clone() };
+                    let mut s = v_lines(&lits, true);
+                    // cut before the terminating zero and its line end: the last number is left unterminated
+                    while s.ends_with('\n') || s.ends_with('\r') || s.ends_with('0') || s.ends_with(' ') {
+                        s.pop();
+                    }
+                    reply.extend_from_slice(s.as_bytes());
+                }
+                "garbage-line" => {
+                    reply.extend_from_slice(format!("hello, this is not a solver reply{}", eol).as_bytes());
+                    match verdict {
+                        Some(true) => {
+                            reply.extend_from_slice(status_line(true).as_bytes());
+                            reply.extend_from_slice(v_lines(&model, true).as_bytes());
+                        }
+                        _ => reply.extend_from_slice(status_line(false).as_bytes()),
+                    }
+                }
+                "unknown-status" => reply.extend_from_slice(format!("s UNKNOWN{}", eol).as_bytes()),
+                "wrong-var" => {
+                    reply.extend_from_slice(status_line(true).as_bytes());
+                    let mut lits = model.clone();
+                    lits.push(n_vars as i32 + 7);
+                    reply.extend_from_slice(v_lines(&lits, true).as_bytes());
+                }
+                "double-status" => {
+                    reply.extend_from_slice(status_line(true).as_bytes());
+                    reply.extend_from_slice(status_line(false).as_bytes());
+                }
+                "crash" => {
+                    // half of an honest SAT reply, then SIGKILL
+                    let mut full = status_line(true).into_bytes();
+                    let lits: Vec<i32> = if model.is_empty() { (1..=n_vars.max(1) as i32).collect() } else { model.clone() };
+                    full.extend_from_slice(v_lines(&lits, true).as_bytes());
+                    let cut = status_line(true).len() + (full.len() - status_line(true).len()) / 2;
+                    reply.extend_from_slice(&full[..cut.min(full.len())]);
+                }
+                _ => {}
+            }
+        }
+    }
+    if o.pad > 0 && o.pad_after {
+        reply.extend_from_slice(&pad_bytes(o.pad, eol));
+    }
+    // the log line is written before the reply: a reply that blocks forever must not hide what was received
+    write_log(
+        &o,
+        invocation,
+        input.len(),
+        Some(&parsed),
+        [0, t_first_read, t_eof, t_first_write, us(&t0)],
+        &kind,
+        written + reply.len(),
+        verdict_name,
+    );
+    let _ = emit(&mut out, &reply, &mut written, &mut t_first_write);
+    let _ = out.flush();
+    match fault_now.as_deref() {
+        Some("crash") => {
+            unsafe {
+                libc::kill(libc::getpid(), libc::SIGKILL);
+            }
+        }
+        Some("exit-code") => std::process::exit(3),
+        _ => {}
+    }
+    if o.mode == "close-stdout-early" {
+        drop(out);
+        unsafe {
+            libc::close(1);
+        }
+        std::thread::sleep(std::time::Duration::from_millis(200));
+    }
+}
